@@ -168,6 +168,112 @@ def run_async_tls_real(inp):
     return [outcome, realio.digest(bytes(peer.plain_in)), [], 0]
 
 
+def run_async_tls_cancel(inp):
+    """impl 13 (path 12): real AsyncTLSStreamTransport on a real SSLObject.  Task A sends and is parked inside the wrapped
+    transport (holding the TLS transport's send lock); task B sends, is queued on that lock and is CANCELLED there (after
+    `steps` loop iterations; 0 = cancelled before it ever ran); A is released; then C is sent.
+    Observables: outcome of C, digest of what the peer decrypted, peer stream still valid."""
+    import asyncio
+    from common import detloop
+    from easynetwork.lowlevel.api_async.transports.abc import AsyncStreamTransport
+    from easynetwork.lowlevel.api_async.transports.tls import AsyncTLSStreamTransport
+    import tlskit
+
+    specs_a, specs_b, specs_c, steps, ver = inp[8]
+    A = [realio.chunk_bytes(c if isinstance(c, bytes) else tuple(c)) for c in specs_a]
+    B = [realio.chunk_bytes(c if isinstance(c, bytes) else tuple(c)) for c in specs_b]
+    C = [realio.chunk_bytes(c if isinstance(c, bytes) else tuple(c)) for c in specs_c]
+    backend = tlskit.new_backend()
+    peer = tlskit.Peer(tlskit.server_ctx(ver), True, [])
+
+    class Wire(AsyncStreamTransport):
+        def __init__(self):
+            self.inbound = bytearray()
+            self.event = asyncio.Event()
+            self.closing = False
+            self.gate = None
+            self.blocked = asyncio.Event()
+
+        async def aclose(self):
+            self.closing = True
+            self.event.set()
+
+        def is_closing(self):
+            return self.closing
+
+        def backend(self):
+            return backend
+
+        @property
+        def extra_attributes(self):
+            return {}
+
+        async def recv(self, bufsize):
+            while not self.inbound and not self.closing:
+                self.event.clear()
+                await self.event.wait()
+            data = bytes(self.inbound[:bufsize])
+            del self.inbound[:bufsize]
+            return data
+
+        async def recv_into(self, buffer):
+            with memoryview(buffer) as view:
+                data = await self.recv(view.nbytes)
+                view[:len(data)] = data
+                return len(data)
+
+        async def send_all(self, data):
+            data = bytes(data)
+            if self.gate is not None:
+                self.blocked.set()
+                await self.gate.wait()
+            peer.feed(data)
+            answer = peer.pump()
+            if answer:
+                self.inbound += answer
+                self.event.set()
+            await asyncio.sleep(0)
+
+        async def send_eof(self):
+            pass
+
+    outcome = 0
+
+    async def main():
+        nonlocal outcome
+        wire = Wire()
+        tls = await AsyncTLSStreamTransport.wrap(wire, tlskit.client_ctx(ver), server_hostname="localhost",
+                                                 handshake_timeout=30.0, shutdown_timeout=1.0, standard_compatible=False)
+        wire.gate = asyncio.Event()
+        task_a = asyncio.ensure_future(tls.send_all_from_iterable(iter(A)))
+        await wire.blocked.wait()
+        task_b = asyncio.ensure_future(tls.send_all_from_iterable(iter(B)))
+        for _ in range(steps):
+            await asyncio.sleep(0)
+        task_b.cancel()
+        await asyncio.wait([task_b])
+        gate, wire.gate = wire.gate, None
+        gate.set()
+        await task_a
+        try:
+            await tls.send_all_from_iterable(iter(C))
+        except BaseException as exc:  # noqa: BLE001
+            if isinstance(exc, (KeyboardInterrupt, SystemExit)):
+                raise
+            outcome = iosim.exc_code(exc)
+        peer.pump()
+        wire.closing = True
+
+    with iosim.alarm(realio.limit(2.5)), detloop.running() as loop:
+        loop.set_exception_handler(lambda _l, _c: None)
+        try:
+            loop.run_until_complete(main())
+        except detloop.DeadlockError:
+            outcome = 8
+    valid = 1 if peer.read_error is None else 0
+    return [outcome, realio.digest(bytes(peer.plain_in)), valid, 0]
+
+
 def run(inp, force=False):
     """force=True (property oracle): run even after the stream was marked stuck (with the short limits)."""
     import time
@@ -175,6 +281,6 @@ def run(inp, force=False):
     if not force and realio.skip_now():
         return [45, realio.digest(b""), [], 0]
     t0 = time.monotonic()
-    out = {5: run_plain, 6: run_tcp_client, 7: run_tls_socket, 9: run_async_tls_real}[impl](inp)
+    out = {5: run_plain, 6: run_tcp_client, 7: run_tls_socket, 9: run_async_tls_real, 13: run_async_tls_cancel}[impl](inp)
     realio.note_duration(time.monotonic() - t0, out[0] == 0)
     return out
